@@ -48,6 +48,28 @@ pub fn extra(ctx: &Ctx, stats: &Stats) {
             }
         }
     });
+    // token level: the look-ahead / stress corpus under every schedule with <= 2 cuts: feed() must leave the
+    // queue empty unless it reports a suspension, one EOF token, no panic
+    {
+        let mut corpus: Vec<String> = crate::c15::keyword_prefix_corpus();
+        corpus.extend(crate::c03::STRESS.iter().map(|s| s.to_string()));
+        corpus.par_iter().for_each(|input| {
+            let cfg = crate::tokh::TokCfg { cdata: true, ..Default::default() };
+            for sched in crate::c03::chunkings(input, 2, 9) {
+                stats.execs.fetch_add(1, Ordering::Relaxed);
+                match guarded(|| crate::tokh::run_real(&cfg, &sched, &[], true, false)) {
+                    Err(p) => {
+                        ctx.violation("panic", &crate::c01::witness(&cfg, &sched), json!({"panic": p, "job": "token-schedules"}));
+                    },
+                    Ok(o) => {
+                        if let Some(p) = o.problems.first() {
+                            ctx.violation("totality", &crate::c01::witness(&cfg, &sched), json!({"message": p, "job": "token-schedules"}));
+                        }
+                    },
+                }
+            }
+        });
+    }
     // scale grid in child processes (stack overflow / abort must be observable)
     let shapes = ["div", "b-close", "table", "template", "svg", "a", "li", "attrval", "attrs", "comment", "amp", "p-button", "font", "nobr", "select", "ruby"];
     let ns: Vec<usize> = if ctx.tier == Tier::Thorough { vec![1000, 10_000, 30_000] } else { vec![1000, 10_000] };
